@@ -94,6 +94,32 @@ void vf::run_case(Src &s, Ctx &c)
     const unsigned nthreads = (unsigned)s.in(2, 6);
 #else
     size_t pidx = s.pick(R.size());
+#ifdef VF_C01P
+    {
+        // configuration companion: planners are drawn in proportion to what they let the caller configure - 1 + 3 per declared switch + 1 per
+        // declared numeric parameter (counted once from each planner's ParamSet, skipping the parameters the harness sets itself)
+        static const struct
+        {
+            const char *name;
+            int sw, num;
+        } K[] = {{"RRTstar", 10, 4}, {"InformedRRTstar", 3, 4}, {"SORRTstar", 3, 4}, {"RRTsharp", 4, 4}, {"RRTXstatic", 4, 5}, {"LBTRRT", 0, 1}, {"LazyLBTRRT", 0, 1},
+                 {"TRRT", 0, 1}, {"BiTRRT", 0, 1}, {"KPIECE1", 0, 1}, {"BKPIECE1", 0, 1}, {"LBKPIECE1", 0, 1}, {"STRIDE", 1, 1}, {"PRM", 0, 1}, {"LazyPRM", 0, 1},
+                 {"SPARS", 0, 4}, {"SPARStwo", 0, 4}, {"FMT", 4, 2}, {"BFMT", 6, 2}, {"BITstar", 8, 3}, {"ABITstar", 8, 6}, {"AITstar", 3, 3}, {"EITstar", 3, 3},
+                 {"EIRMstar", 3, 4}, {"SST", 0, 2}, {"RLRT", 1, 0}, {"BiRLRT", 1, 1}, {"CForest", 1, 0}, {"AnytimePathShortening", 2, 1}};
+        std::vector<int> w(R.size(), 1);
+        int total = 0;
+        for (size_t i = 0; i < R.size(); ++i)
+        {
+            for (auto &k : K)
+                if (std::string(k.name) == R[i].name)
+                    w[i] = 1 + 3 * k.sw + k.num;
+            total += w[i];
+        }
+        int r = (int)s.u(0, (uint64_t)total - 1);
+        for (pidx = 0; pidx + 1 < R.size() && r >= w[pidx]; ++pidx)
+            r -= w[pidx];
+    }
+#endif
     // exploration aid (never set by ./check): sweep one planner, e.g. VF_FORCE_PLANNER=PDST ./check C01 --seed 5
     if (const char *fp = std::getenv("VF_FORCE_PLANNER"))
         if (findPlanner(fp) >= 0)
